@@ -342,12 +342,16 @@ def check_i2(case, root, via, bdoc):
     for rel, p in sorted(pages.items()):
         links, html = links_of(p)
         for url, text in links:
+            if url.split("#")[0].rstrip("/") in (".", "..", ""):
+                if not url.startswith("#"):
+                    findings.append(("I2/link-to-directory/%s" % via, "%s: '%s' is wrapped in a link to '%s' (a directory, not a page)" % (rel, text, url)))
+                continue
             t = into_a(url, p, pub, via)
             if t is None:
                 if not re.match(r"^[a-z][a-z0-9+.-]*:", url, re.I) and not url.startswith("#") and url.split("#")[0]:
                     tgt0 = url.split("#")[0].split("?")[0]
                     ap = os.path.normpath(os.path.join(os.path.dirname(p), tgt0)) if not os.path.isabs(tgt0) else os.path.normpath(tgt0)
-                    if not (ap == bdoc or ap.startswith(bdoc + "/")) and not os.path.exists(ap):
+                    if not (ap == bdoc or ap.startswith(bdoc + "/")) and not os.path.isfile(ap):
                         findings.append(("I2/dangling-elsewhere/%s" % via, "%s: link '%s' -> %s leaves B's documentation and leads nowhere" % (rel, text, url)))
                 continue
             n_links += 1
@@ -529,6 +533,14 @@ def evaluate(case, seed, workdir, history=None):
         refs = [m["name"] for m in case["world"]["mods"][case.get("zsplit", 0):k]]
         bbody += "References: " + " ".join("[[%s]]" % r for r in refs[:3]) + "\n"
         bbody += "Variables: " + " ".join("[[%s:%s]]" % mv for mv in ref_vars(case)) + "\n"
+    if case.get("b_refs"):
+        # references to public entities of A that carry no documentation (hidden when A is built with hide_undoc)
+        k = case["split"]
+        und = [e["name"] for m in case["world"]["mods"][case.get("zsplit", 0):k] for e in m["ents"]
+               if e.get("undoc") and e["kind"] in ("sub", "func", "type") and usemodel.effective_access(m, e) == "public"
+               and not (case.get("own") and e["name"] in (case["own"] or {}).values())]
+        if und:
+            bbody += "Undocumented in A: " + " ".join("[[%s]]" % n for n in und[:3]) + "\n"
     own_names = [n for n in ((case.get("own") or {}).get("proc_named_like_type"), (case.get("own") or {}).get("proc_named_like_proc")) if n]
     if own_names:
         bbody += "Own: " + " ".join("[[%s]]" % n for n in own_names) + "\n"
